@@ -70,12 +70,34 @@ CondSig(c, item, names, values) ==
 PathTy(p, item, names) == IF ~ResolveOK(p, names) THEN "undefined"
                           ELSE LET g == GetPath(item, Resolve(p, names)) IN IF g.p THEN g.v.t ELSE "absent"
 RhsTy(o, item, names, values) == LET r == Rhs(o, item, names, values) IN IF r.ok THEN r.v.t ELSE "invalid"
+ParentTy(p, item, names) == IF Len(p) < 2 THEN "item" ELSE PathTy(SubSeq(p, 1, Len(p) - 1), item, names)
+Depth(p) == IF Len(p) = 1 THEN "top" ELSE "nested"
+RECURSIVE RhsReads(_)
+RhsReads(o) == CASE o.k = "path" -> {o.p}
+                 [] o.k \in {"plus", "minus", "lapp"} -> RhsReads(o.l) \cup RhsReads(o.r)
+                 [] o.k = "ine" -> {o.p} \cup RhsReads(o.v)
+                 [] OTHER -> {}
+RECURSIVE HasEmpty(_)
+HasEmpty(v) == CASE v.t = "L" -> v.l = <<>> \/ \E i \in DOMAIN v.l : HasEmpty(v.l[i])
+                 [] v.t = "M" -> DOMAIN v.m = {} \/ \E k \in DOMAIN v.m : HasEmpty(v.m[k])
+                 [] OTHER -> FALSE
+ItemHasEmpty(it) == \E k \in DOMAIN it : HasEmpty(it[k])
+\* signatures of an update case: one per action (clause, shape, typing), plus markers for the situations that
+\* known findings are about
 UpdSig(u, item, names, values) ==
-     { <<"set", u.set[i].v.k, IF Len(u.set[i].p) = 1 THEN "top" ELSE "nested", PathTy(u.set[i].p, item, names), RhsTy(u.set[i].v, item, names, values)>> : i \in DOMAIN u.set }
-  \cup { <<"remove", IF Len(u.remove[i]) = 1 THEN "top" ELSE "nested", PathTy(u.remove[i], item, names)>> : i \in DOMAIN u.remove }
+     { <<"set", u.set[i].v.k, Depth(u.set[i].p), u.set[i].p[Len(u.set[i].p)].s, ParentTy(u.set[i].p, item, names),
+         PathTy(u.set[i].p, item, names), RhsTy(u.set[i].v, item, names, values)>> : i \in DOMAIN u.set }
+  \cup { <<"remove", Depth(u.remove[i]), u.remove[i][Len(u.remove[i])].s, ParentTy(u.remove[i], item, names), PathTy(u.remove[i], item, names)>> : i \in DOMAIN u.remove }
   \cup { <<"add", PathTy(u.add[i].p, item, names), RhsTy(u.add[i].v, item, names, values)>> : i \in DOMAIN u.add }
   \cup { <<"delete", PathTy(u.del[i].p, item, names), RhsTy(u.del[i].v, item, names, values)>> : i \in DOMAIN u.del }
-LabSig(e) == IF e.op = "Match" THEN CondSig(e.ast, e.item, e.names, e.values) ELSE UpdSig(e.ast, e.item, e.names, e.values)
+  \cup (IF \E i \in DOMAIN u.set : \E t \in DOMAIN AllTargets(u) : \E r \in RhsReads(u.set[i].v) :
+               ResolveOK(r, names) /\ ResolveOK(AllTargets(u)[t], names) /\ Overlap(Resolve(r, names), Resolve(AllTargets(u)[t], names))
+               /\ Len(AllTargets(u)) > 1
+         THEN { <<"rhs-reads-a-target">> } ELSE {})
+  \cup (LET res == ApplyU(u, item, names, values, {"pk"}) IN
+        IF ItemHasEmpty(item) \/ (res.ok /\ ItemHasEmpty(res.item)) THEN { <<"empty-container">> } ELSE {})
+LabSig(e) == IF e.op = "Match" THEN CondSig(e.ast, e.item, e.names, e.values) \cup (IF ItemHasEmpty(e.item) THEN { <<"empty-container">> } ELSE {})
+             ELSE UpdSig(e.ast, e.item, e.names, e.values)
 
 LabFails(e) ==
   UNION { LET out == e.r[ch]
@@ -86,8 +108,16 @@ LabFails(e) ==
              THEN LET allowed == CondOut(e.ast, e.item, e.names, e.values) IN
                   (IF (out.o \in {"T", "F"} /\ out.o \in allowed) \/ (isErr /\ "E" \in allowed) THEN {} ELSE { ch \o ".Outcome" })
                   \cup (IF out.after.some /\ ~SameItem(out.after.i, e.item) THEN { ch \o ".Modified" } ELSE {})
-             ELSE LET res == ApplyU(e.ast, e.item, e.names, e.values, {"pk"}) IN
-                  IF res.ok
+             ELSE LET res == ApplyU(e.ast, e.item, e.names, e.values, {"pk"})
+                      \* REMOVE below a parent that is missing or is not the right kind of container: no-op or error (D.3)
+                      soft == \E i \in DOMAIN e.ast.remove : Len(e.ast.remove[i]) > 1 /\
+                                 LET pt == ParentTy(e.ast.remove[i], e.item, e.names)
+                                     last == e.ast.remove[i][Len(e.ast.remove[i])].s
+                                 IN ~((pt = "M" /\ last \in {"n", "a"}) \/ (pt = "L" /\ last = "i"))
+                  IN
+                  IF res.ok /\ soft /\ isErr
+                  THEN (IF out.after.some /\ ~SameItem(out.after.i, e.item) THEN { ch \o ".Modified" } ELSE {})
+                  ELSE IF res.ok
                   THEN (IF out.o = "ok" THEN {} ELSE { ch \o ".Outcome" })
                        \cup (IF out.o = "ok" /\ ~(out.after.some /\ SameItem(out.after.i, res.item)) THEN { ch \o ".Result" } ELSE {})
                   ELSE (IF isErr THEN {} ELSE { ch \o ".Outcome" })
